@@ -53,6 +53,7 @@ type Contract struct {
 	Ensures    []*Clause
 	Assigns    []*AssignTarget
 	HasAssigns bool
+	WriteSetFrame bool
 	Pure       bool
 	Trusted    bool
 	TrustedWhy string
@@ -310,6 +311,13 @@ func (e *Engine) loadContractFile(path string, lib bool, pkg *types.Package) err
 				}
 			case "assigns":
 				cur.HasAssigns = true
+				if strings.TrimSpace(rest) == "writeset" {
+					// the frame is what the body (transitively) stores to, computed by the write-set
+					// analysis (used by thin contracts, whose frame obligations are not generated)
+					cur.HasAssigns = false
+					cur.WriteSetFrame = true
+					continue
+				}
 				for _, t := range splitTop(rest, ',') {
 					t = strings.TrimSpace(t)
 					if t == "" || t == "nothing" {
